@@ -1058,8 +1058,10 @@ class Node(object):
             if node.attributes is not None and self.attributes is not None:
                 node.attributes.update(self.attributes)
             if self.hasChildNodes():
+                # The children still belong to the node that is being
+                # cloned, so leave their parentNode alone
                 for x in self.childNodes:
-                    node.append(x)
+                    node.append(x, setParent=False)
         return node
 
     def normalize(self, charsubs=None):
